@@ -139,12 +139,13 @@ Section Cyclic.
     - intro H. destruct (In_nth _ _ x H) as [i [Hi E]].
       eexists _, _. apply (in_cyc_wedges _ x). exists i. split; [exact Hi|]. rewrite E. reflexivity.
     - intros [p [n H]]. apply (in_cyc_wedges _ x) in H. destruct H as [i [Hi E]].
-      injection E as _ Ev _. rewrite Ev. apply nth_In. exact Hi.
+      injection E as _ Ev _. rewrite Ev. exact (nth_In (x :: t) x Hi).
   Qed.
 
   Lemma cyc_edges_vertex (l : list point) a b : In (a, b) (cyc_edges l) -> In a l /\ In b l.
   Proof.
     destruct l as [|x t]; [simpl; tauto|]. intro H. apply (in_cyc_edges _ x) in H.
-    destruct H as [i [Hi E]]. injection E as -> ->. split; apply nth_In; [exact Hi|now apply succ_i_lt].
+    destruct H as [i [Hi E]]. injection E as Ea Eb. rewrite Ea, Eb.
+    split; [exact (nth_In (x :: t) x Hi)|exact (nth_In (x :: t) x (succ_i_lt _ _ Hi))].
   Qed.
 End Cyclic.
